@@ -122,3 +122,13 @@ Definition rarg_eqb (a b : rarg) : bool :=
 Definition calls_eqb : list (list rarg) -> list (list rarg) -> bool := list_eqb (list_eqb rarg_eqb).
 Definition denan_calls (cs : list (list rarg)) : list (list rarg) :=
   map (map (fun a => match a with RNested vs => RNested (map denan vs) | RBase v => RBase v end)) cs.
+From NP Require Import Dtype Names.
+Definition target_eqb (a b : target) : bool :=
+  match a, b with
+  | TColumn x, TColumn y => str_eqb x y
+  | TField n f, TField n' f' => str_eqb n n' && str_eqb f f'
+  | TNewNest n f, TNewNest n' f' => str_eqb n n' && str_eqb f f'
+  | TNewColumn x, TNewColumn y => str_eqb x y
+  | TRaise, TRaise => true
+  | _, _ => false
+  end.
